@@ -263,9 +263,18 @@ fn c02_walk(idx: usize, ctx: &Ctx, rpt: &mut Report) {
     // When links are followed, re-entrant links are relative to the ancestors of the traversal,
     // which starts at the base joined with the invariant prefix (as in C15); otherwise the model
     // traverses everything beneath the base without consulting the prefix.
-    let (start, start_candidate) = if follow_of(&behaviour) && case.family == "unrooted" {
+    let (start, start_candidate) = if follow_of(&behaviour) {
         let (s, _) = glob.verif_walk_anchor(case.base.clone());
-        let pre = rel_of(&s, &case.base).unwrap_or_default();
+        let pre = if case.family == "rooted" {
+            let t = s.to_string_lossy().to_string();
+            if t.len() > 1 { t.trim_end_matches('/').to_string() } else { t }
+        }
+        else {
+            // Textual remainder after the base (keeps `..` components).
+            let b = case.base.to_string_lossy().to_string();
+            let t = s.to_string_lossy().to_string();
+            t.strip_prefix(b.trim_end_matches('/')).map(|r| r.trim_matches('/').to_string()).unwrap_or_else(|| rel_of(&s, &case.base).unwrap_or_default())
+        };
         (s, pre)
     }
     else {
